@@ -324,6 +324,9 @@ def type_sizes(binary):
     return out
 
 
+MAX_CRASHES_PER_FILE = 40
+
+
 def run_cases(binary, cases, timeout=300):
     """cases: list of (id, type_index, endian, op, bytes[, alloc budget per input byte]). Returns (results {id: dict}, process_reports list).
     A case dict has keys from the protocol plus 'crash' (sanitizer report text) when the process died in it."""
@@ -333,9 +336,15 @@ def run_cases(binary, cases, timeout=300):
     env.update(ASAN_ENV)
     todo = list(cases)
     guard = 0
+    crashes = 0
     while todo:
         guard += 1
         if guard > len(cases) + 5:
+            break
+        if crashes > MAX_CRASHES_PER_FILE:
+            # every crash costs a restart of the instrumented binary: beyond this many the verdict is clear and the
+            # remaining cases of this schema file are left unexecuted (the caller counts them)
+            results['__crash_cap__'] = {'crashes': crashes, 'not_executed': len(todo)}
             break
         inp = ''.join('%s %d %d %d %d %s\n' % (c[0], c[1], c[2], c[3], c[5] if len(c) > 5 else 64,
                                                  c[4].hex() if c[4] else '-') for c in todo)
@@ -391,6 +400,7 @@ def run_cases(binary, cases, timeout=300):
             else:
                 cur['crash'] = err if len(err) < 7000 else err[:5000] + '\n...\n' + err[-1500:]
                 cur['rc'] = rc
+                crashes += 1
             idx = [i for i, c in enumerate(todo) if c[0] == cur['id']]
             todo = todo[idx[0] + 1:] if idx else []
             continue
@@ -410,6 +420,42 @@ def run_cases(binary, cases, timeout=300):
 # raw codec drivers (C08, C09)
 # ---------------------------------------------------------------------------
 
+def raw_sizeof(schema, wire, tname, _memo=None):
+    """sizeof of the raw C++ struct prophyc emits for tname. Fixed types: the wire size. Others: the blocks laid out one
+    after the other (each partN is a member of the packed main struct, so it follows without padding), an array without a fixed
+    extent declared with one element, a nested non-fixed struct with its own sizeof; rounded up to the alignment."""
+    _memo = _memo if _memo is not None else {}
+    if tname == 'byte':
+        return 1
+    r = schema.resolve(tname)
+    if isinstance(r, str):
+        return wire.tinfo(tname)[0]
+    size, align, stiff = wire.tinfo(r.name)
+    if size is not None and stiff == 0:
+        return size
+    if r.name in _memo:
+        return _memo[r.name]
+    L = wire.layout(r.name)
+    end = 0
+    for bi, block in enumerate(L.blocks):
+        start = end        # the main struct is packed: a part member follows the previous block without padding
+        bend = 0
+        for f, off in zip(block, L.offsets[bi]):
+            m = f.member
+            if f.size is not None:
+                bend = off + f.size
+            elif f.role == 'member' and m.kind == PLAIN:
+                bend = off + raw_sizeof(schema, wire, m.type, _memo)
+            else:
+                bend = off + raw_sizeof(schema, wire, m.type, _memo)      # [1] element
+        if bi:
+            bend = -(-bend // L.block_align[bi]) * L.block_align[bi]        # sizeof(partN)
+        end = start + bend
+    out = -(-end // align) * align
+    _memo[r.name] = out
+    return out
+
+
 def raw_expected_layout(schema, wire, names):
     """Reference table: {('S', type): (size or None, align), ('M', container, member): offset}."""
     exp = {}
@@ -417,6 +463,8 @@ def raw_expected_layout(schema, wire, names):
         d = schema.by_name[n]
         size, align, stiff = wire.tinfo(n)
         exp[('S', n)] = (size, align)
+        if size is None and d.kind == 'struct':
+            exp[('R', n)] = (raw_sizeof(schema, wire, n), align)
         if d.kind == 'union':
             a = align
             exp[('M', n, 'discriminator')] = 0
@@ -447,7 +495,7 @@ def raw_layout_driver_source(schema, wire, names, name='sch'):
     exp = raw_expected_layout(schema, wire, names)
     lines = ['#include <cstdio>', '#include <cstddef>', '#include "%s.pp.hpp"' % name, 'int main()', '{']
     for key in exp:
-        if key[0] in ('S', 'P'):
+        if key[0] in ('S', 'P', 'R'):
             lines.append('    printf("%s %s %%zu %%zu\\n", sizeof(%s), (size_t)__alignof__(%s));' % (key[0], key[1], key[1], key[1]))
         else:
             lines.append('    printf("M %s %s %%zu\\n", (size_t)__builtin_offsetof(%s, %s));' % (key[1], key[2], key[1], key[2]))
@@ -461,7 +509,7 @@ def parse_layout_output(text):
         a = ln.split()
         if not a:
             continue
-        if a[0] in ('S', 'P'):
+        if a[0] in ('S', 'P', 'R'):
             got[(a[0], a[1])] = (int(a[2]), int(a[3]))
         elif a[0] == 'M':
             got[('M', a[1], a[2])] = int(a[3])
